@@ -322,3 +322,22 @@ def front_delegation(model: Model, rep, rule: str, cls_name: str, member: str, t
             bad.append("stores " + ", ".join(show(e.term)[:60] for e in st if e.term is not None))
     rep.check(not bad and len(paths) >= 1, rule, f"{cls_name}.{member}", f.loc, found="; ".join(bad) or show(paths[0].value), required=f"return self._structure.{target_attr}{'()' if is_call else ''} (always)",
               what=what + ": " + "; ".join(bad), detail="front")
+
+
+def instance_state_rule(model, rep, rule: str, text: str, keep, floor: int = 1):
+    """Per-instance state lives in the instance: an attribute that methods change in place through ``self`` is bound by a constructor (or is a dataclass
+    field), never only a class-level container shared by all instances."""
+    from ..alias import shared_class_containers
+    rep.rule(rule, text)
+    classes = [c for c in model.all_classes() if keep(c)]
+    rep.floor(f"{rule} classes examined", len(classes), floor)
+    found, examined = shared_class_containers(model, classes)
+    rep.analysed[f"{rule} in-place changes through self examined"] = examined
+    for c in classes:
+        mine = [s for s in found if s.cls is c]
+        if not mine:
+            rep.ok(rule, f"{c.name}[instance state]", c.loc, found="every container changed through self is bound per instance", required="per-instance containers")
+        for s in mine:
+            rep.fail(rule, f"{c.name}.{s.attr}[shared]", s.loc, found=s.why, required=f"self.{s.attr} bound in __init__ / a dataclass field with default_factory",
+                     what=f"all {c.name} objects read and write one container: a value set on one of them is seen (or overwritten) through every other, and a fresh "
+                          f"one does not start empty ({s.site.qualname} changes it in place)", detail=f"shared:{s.attr}")
